@@ -58,13 +58,26 @@ Inductive skind :=
 | KText (bits : N)       (* other encoding.TextUnmarshaler of integer kind (zapcore.Level) *)
 | KOpaque.               (* url.URL, net.IP, ... : not modelled, decode is an explicit error *)
 
+(* round 7: a condition on the options of ONE config struct, named by their accepted keys (used by TCtorRel) *)
+Inductive ocond :=
+| OTrue | OFalse
+| OSet (k : str)              (* option k holds something: a non-empty string / list / map, a non-zero number, true *)
+| OIs (k : str) (v : str)     (* the string option k holds exactly v *)
+| ONot (c : ocond) | OAnd (a b : ocond) | OOr (a b : ocond).
+
 Inductive vtag :=
 | TRequired | TMin (n : Z) | TMax (n : Z)
 | TMinTime (ns : Z) | TMaxTime (ns : Z) | TMinSize (b : Z) | TMaxSize (b : Z)
 | TEndpoint | TUrlPath | TDive
-| TCtorHeaders.          (* not a validate tag: the documented form of the option (a list of "[Name: value]" lines) is
+| TCtorHeaders           (* not a validate tag: the documented form of the option (a list of "[Name: value]" lines) is
                             enforced by the component's constructor (decoders.NewDecoder -> util.DecodeHTTPConfigHeaders),
                             which plugin.New runs while the component's section is being decoded *)
+| TCtorRel (pre post : ocond)
+                         (* round 7, not a validate tag either: a RELATION between options of the component's config that its
+                            constructor enforces -- when `pre` holds of the filled config, `post` has to hold as well
+                            (http providers: `uris` and `file` exclude each other, one of them is needed, `uris` only
+                            with the uri decoder).  Carried by the option the relation is documented at. *)
+.
 
 (* a struct field: accepted key (config tag or Go field name), squash flag, validate tags, type *)
 Inductive schema :=
@@ -536,6 +549,7 @@ Definition check_tag (s : schema) (c : cval) (t : vtag) : bool :=
   | TUrlPath => match c with CStr x => match orc OUrlPath x with Some _ => true | None => false end | _ => false end
   | TDive => true
   | TCtorHeaders => true        (* validator.v9 never sees it: see ctor_ok *)
+  | TCtorRel _ _ => true
   end.
 
 Fixpoint has_dive (l : list vtag) : bool :=
@@ -668,8 +682,49 @@ Fixpoint ctor_fields (cs : list cval) (ffs : list fld) : bool :=
   | c' :: cs', f :: ffs' => ctor_field_ok (f_tags f) c' && ctor_fields cs' ffs'
   | _, _ => true
   end.
+
+(* round 7 -- relations between options.  The value of the option with key k in a filled config struct (first flat
+   field carrying the key), whether an option "holds something" (Go: s != "", len(l) > 0, n != 0, b), and the
+   evaluation of a condition on the filled struct. *)
+Fixpoint opt_val (k : str) (ffs : list fld) (cs : list cval) : option cval :=
+  match ffs, cs with
+  | f :: ffs', c :: cs' => if str_eqb (f_key f) k then Some c else opt_val k ffs' cs'
+  | _, _ => None
+  end.
+
+Definition opt_set (c : cval) : bool :=
+  match c with
+  | CNil => false
+  | CBool b => b
+  | CInt z => negb (Z.eqb z 0)
+  | CFloat q => negb (Z.eqb (Qnum q) 0)
+  | CStr x => match x with [] => false | _ => true end
+  | CSlice l => match l with [] => false | _ => true end
+  | CMap l => match l with [] => false | _ => true end
+  | _ => true
+  end.
+
+Fixpoint ocond_b (ffs : list fld) (cs : list cval) (c : ocond) : bool :=
+  match c with
+  | OTrue => true
+  | OFalse => false
+  | OSet k => match opt_val k ffs cs with Some x => opt_set x | None => false end
+  | OIs k v => match opt_val k ffs cs with Some (CStr x) => str_eqb x v | _ => false end
+  | ONot a => negb (ocond_b ffs cs a)
+  | OAnd a b => ocond_b ffs cs a && ocond_b ffs cs b
+  | OOr a b => ocond_b ffs cs a || ocond_b ffs cs b
+  end.
+
+Definition rel_tag_ok (ffs : list fld) (cs : list cval) (t : vtag) : bool :=
+  match t with
+  | TCtorRel pre post => implb (ocond_b ffs cs pre) (ocond_b ffs cs post)
+  | _ => true
+  end.
+Definition ctor_rels (ffs : list fld) (cs : list cval) : bool :=
+  forallb (fun f => forallb (rel_tag_ok ffs cs) (f_tags f)) ffs.
+
 Definition ctor_ok (s : schema) (c : cval) : bool :=
-  match c with CStruct cs => ctor_fields cs (flat_fields s) | _ => true end.
+  match c with CStruct cs => ctor_fields cs (flat_fields s) && ctor_rels (flat_fields s) cs | _ => true end.
 
 (* ---------------------------------------------------------------- structs, slices, maps, plugins *)
 Fixpoint find_exact (k : str) (kvs : list (str * value)) : option (str * value) :=
@@ -862,6 +917,17 @@ Definition prop_of_files (files : str -> option str) (file key : str) : option s
   match files file with
   | None => None                                          (* cannot open file *)
   | Some content => prop_scan key (raw_lines [] content)
+  end.
+
+(* ---------------------------------------------------------------- the environment (lib/confutil/env_var_resolver.go), round 7
+   os.LookupEnv on the process environment: a list of NAME=value entries; the answer is the value of the first entry
+   whose NAME is exactly -- byte for byte -- the asked one (Go's syscall.copyenv keeps the first of repeated names);
+   names differing in letter case, proper prefixes and extensions of the name are other variables.
+   `env_of_list l` is what the oracle `env` of the decoder is for a given environment. *)
+Fixpoint env_of_list (l : list (str * str)) (name : str) : option str :=
+  match l with
+  | [] => None
+  | (k, v) :: r => if str_eqb k name then Some v else env_of_list r name
   end.
 
 (* ---------------------------------------------------------------- fuel: three times the depth of the value tree plus three
